@@ -15,6 +15,7 @@ import re
 
 import cegen
 import common
+import lateinit
 import cxx
 import pyoracle
 from common import Ctx
@@ -213,6 +214,7 @@ def run(ctx: Ctx) -> int:
     folded_delays(ctx)
     const_env(ctx)
     shadowing(ctx)
+    lateinit.check(ctx, "fold:global-initialiser-order", 40, 400)
     ctx.cov["rule"] = ("(a) random name-free expressions + chained comparisons: model vs _eval_const vs Python eval; folded sleep() arguments vs firmware delays; "
                        "(b) random scripts over str/list names with len() fold sites, appends/removes, rebinding, branches decided by a run-time value, loops, main loop "
                        "(half of them fold-safe by construction): fold sites vs emitted text, model traces vs CPython and firmware, firmware vs CPython; (c) parameters shadowing constants")
